@@ -227,6 +227,17 @@ func c01Templates() []string {
 		`str = "xyz"; f = func() {r = ""; for c = str {r = c + r}; r}; println(f())`,
 		`println(for 0 {1}, for i = 0 {1}, catch(for -1 {1}).err, catch(for "a" {1}).err, catch(for 1.5 {1}).err)`,
 	)
+	// a container modified, handed to another holder without a plain assignment, modified again: the holder keeps its value
+	for _, init := range []string{"1:12", "[1, 2, 3]", "0:9", `{"a": 1, "b": 2, "c": 3, "d": 4, "e": 5}`, `{"a": 1}`} {
+		k0 := "0"
+		if strings.HasPrefix(init, "{") {
+			k0 = `"a"`
+		}
+		for _, stash := range []string{"m.k = a", "h[0] = a", "for x = [a] {h[1] = x}", "h = h + [a]", "m = m + {\"k\": a}", "g(a)"} {
+			t = append(t, fmt.Sprintf(`m = {}; h = [0, 0]; g = func(p) {h[0] = p}; a = %s; a[%s] = 100; %s; a[%s] = 200; println(a, m, h)`, init, k0, stash, k0))
+			t = append(t, fmt.Sprintf(`f = func() {m = {}; h = [0, 0]; g = func(p) {h[0] = p}; a = %s; a[%s] = 100; %s; a[%s] = 200; [a, m, h]}; println(f())`, init, k0, stash, k0))
+		}
+	}
 	// a function called again after something it depends on was rebound in every possible way (the result must be recomputed)
 	for _, change := range []string{"f = x => x * 11", "f := x => x * 11", "del(f); f = x => x * 11", "func f(x) {x * 11}", "set = func() {f = x => x * 11}; set()",
 		"set = func() {old = f; f = x => old(x) * 11; old(0)}; set()", "k = 5", "k := 5", "k++", "set = func() {k = 5}; set()", "set = func() {t = k; k = t + 4; t}; set()"} {
